@@ -241,6 +241,34 @@ def run(R):
         import C04
         C04.check_status_writer(R, tonic, 'C12.R2')
 
+    # ---------------------------------------------------------------- R6 the conversion the interceptor output goes through is lossless
+    R.describe('C12.R6', 'Request::into_http with SanitizeHeaders::No hands on the metadata map as it is: nothing touches self.metadata before into_headers (no removal of hop-by-hop or other names that depends on version / method), and into_headers returns the map it holds; uri / method / version / extensions are the arguments')
+    with R.guard('C12.R6'):
+        ih_ = tonic.body('request::Request::<T>::into_http')
+        R.saw(ih_)
+        conv = [(bb, t) for bb, t in ih_.calls() if t.get('name') in ('into_headers', 'into_sanitized_headers')]
+        R.check(len([1 for bb, t in conv if t.get('name') == 'into_headers']) == 1, 'C12.R6', 'one-into_headers', site(ih_), 'conversions: %r' % [t.get('name') for bb, t in conv])
+        touch = []
+        for bb, t in ih_.calls():
+            if t.get('name') in ('into_headers', 'into_sanitized_headers') or t.get('k') != 'call':
+                continue
+            for a in t['args']:
+                o = ih_.origin(a)
+                if mentions_field(o, 'metadata') and arg_root(through_calls(strip_refs(o), {'deref', 'deref_mut', 'borrow_mut', 'as_mut'})) == 1:
+                    touch.append((bb, t))
+        for bb, t in touch:
+            R.bad('C12.R6', 'metadata-touched-before-conversion:%s' % t.get('name'), site(ih_, bb), '%s is applied to the metadata before it becomes the header map: the interceptor output no longer arrives as it was' % (t.get('fn') or t.get('name')))
+        if not touch:
+            R.ok('C12.R6', 'metadata-untouched-before-conversion', site(ih_), 'no call other than the conversion takes self.metadata')
+        for bb, t in conv:
+            if t.get('name') == 'into_headers':
+                o = strip_refs(ih_.origin(t['args'][0]))
+                R.check(field_names(o)[-1:] == ['metadata'] and arg_root(o) == 1, 'C12.R6', 'into_headers(self.metadata)', site(ih_, bb), 'receiver = %s' % show(o)[:80])
+        mh = tonic.body('metadata::map::MetadataMap::into_headers')
+        R.saw(mh)
+        rt = mirlib.returned_terms(mh)
+        R.check(len(rt) == 1 and field_names(rt[0][1])[-1:] == ['headers'] and arg_root(rt[0][1]) == 1 and not [1 for bb, t in mh.calls() if t.get('name') in HEADER_MUTATORS + ('clear', 'retain', 'drain')], 'C12.R6', 'into_headers=self.headers', site(mh), 'into_headers returns %s' % (show(rt[0][1])[:60] if rt else None))
+
     # ---------------------------------------------------------------- R5 type-level witnesses (E4)
     R.describe('C12.R5', 'compile-fail witnesses: an interceptor is a function of Request<()> — it cannot name, read or replace the request body; '
                          'Request::into_http / SanitizeHeaders (the un-sanitised conversion used for the interceptor output) are not reachable from outside tonic')
